@@ -36,6 +36,10 @@ def hitsound_copy(osu_src: OsuMap, osu_tgt: OsuMap) -> OsuMap:
     HS_FINISH = 4
     HS_WHISTLE = 8
 
+    # The sound bits are whole numbers even when an edit through the stack
+    # (rate, offset shift) has left the column float-typed
+    df_src["hitsound_set"] = df_src["hitsound_set"].astype(int)
+
     # Before we group, we want to split the hitsound_file to clap,
     # finish and whistle (2, 4, 8)
     df_src["hitsound_clap"] = np.where(
